@@ -10,7 +10,7 @@ from .. import core
 
 PATH = os.path.join(core.VERIF, "matrix", "text.json")
 INT_TYPES = [("signed char", "i8"), ("unsigned char", "u8"), ("short", "i16"), ("unsigned short", "u16"), ("int", "i32"), ("unsigned", "u32"), ("long", "i64"), ("unsigned long", "u64"),
-             ("vf::i128", "i128"), ("vf::u128", "u128"), ("cnl::wide_integer<200,int>", "wide200"), ("cnl::elastic_integer<20>", "elastic20"),
+             ("vf::i128", "i128"), ("vf::u128", "u128"), ("cnl::wide_integer<200,int>", "wide200"), ("cnl::wide_integer<103,int>", "wide103"), ("cnl::wide_integer<256,int>", "wide256"), ("cnl::wide_integer<512,std::int64_t>", "wide512"), ("cnl::elastic_integer<20>", "elastic20"),
              ("cnl::overflow_integer<int,cnl::saturated_overflow_tag>", "overflow_i32"), ("cnl::wide_integer<100,unsigned>", "wide100u")]
 REPS = [("signed char", "i8"), ("unsigned char", "u8"), ("short", "i16"), ("unsigned short", "u16"), ("int", "i32"), ("unsigned", "u32"), ("long", "i64"), ("unsigned long", "u64")]
 
@@ -120,7 +120,12 @@ def judge(res13, res14, job):
         p = line.split(" ")
         tag = p[0]
         if tag == "V":
-            vals[(int(p[1]), int(p[2]))] = int(p[3])
+            if p[3].startswith("E"):
+                k_, d_, n_ = p[3][1:].split(":")
+                v_ = (1 << int(k_)) + int(d_)
+                vals[(int(p[1]), int(p[2]))] = -v_ if n_ == "1" else v_
+            else:
+                vals[(int(p[1]), int(p[2]))] = int(p[3])
             continue
         if tag == "P" and len(p) >= 11:
             kid, vidx, base, ln, kind, ec, off, canary, tail = int(p[1]), int(p[2]), int(p[3]), int(p[4]), p[5], int(p[6]), int(p[7]), int(p[8]), int(p[9])
